@@ -815,7 +815,10 @@ func TestExecute(t *testing.T) {
 // ---------------------------------------------------------------------------------------
 // leg 2: every precompiled address x every payload length 0..200 (enumeration)
 
+var sweepSkipped int
+
 func sweepCases() []Case {
+	sweepSkipped = 0
 	pres := []byte{1, 2, 3, 4, 5, 6, 7, 8, 0xfe}
 	fills := []byte{0x00, 0xff, 0x01}
 	var cases []Case
@@ -840,6 +843,7 @@ func sweepCases() []Case {
 				s := TxSpec{Kind: "eth", Key: 0, Nonce: nonce, To: common.BytesToAddress([]byte{p}).Bytes(), Gas: 5000000, Data: data, Sig: "ok", Note: "precompile-sweep"}
 				if p == 0xfe && adminInputPanics(data) {
 					if avoid && kept >= 3 {
+						sweepSkipped++
 						continue // listed finding: three representatives are enough
 					}
 					kept++
@@ -876,6 +880,9 @@ func TestPrecompileSweep(t *testing.T) {
 		shards = 1
 	}
 	cases := sweepCases()
+	if sweepSkipped > 0 {
+		h.Note("C09", "presweep", "excluded:%s: %d inputs of 0xfe that trigger the listed finding are left out (3 representatives kept)", sigAdminSlice, sweepSkipped)
+	}
 	for i, c := range cases {
 		if i%shards != shard {
 			continue
